@@ -15,4 +15,5 @@ def check(tree, rep, tier='quick', seed=0):
     core = get_core(tree)
     R.k21_typed_values(core, rep)
     R.k6_single_value_writer(core, rep)
+    R.k7_missing_key_raises(core, rep)   # the store keeps the value as the field produced it (no second rounding behind the field's back)
     rep.floor('core rule obligations', sum(v[0] for k, v in rep.rules.items() if k.startswith('K')), 35)
